@@ -22,8 +22,8 @@ import vlib
 
 META = {
     "category": "proof",
-    "text": "Coq theorems (Sync42/Props_C18.v) over executable models of sync42's lru.rs (pointer-level doubly linked list + index refines a sequential LRU map for every operation sequence: no panic, no dangling pointer, no leak, size = sum of entry sizes, size <= capacity + sizes of entries last written with eviction disabled), wait_list.rs (the ring of slots refines 'set of linked waiters, oldest is the head' for every sequence of link / blocked link / wake / unlink in any order / notify / store / load incl. more waiters than slots and index wrap-around) and work_coalescing_queue.rs (small-step interleaving model, any number of threads and calls, any core batching policy, mutexes, condition variables with spurious wake-ups and arbitrary notify_one choice: every schedule is panic-free, the core sees each input exactly once in link order, every call returns the output at its own position of its own batch, and no reachable state is a deadlock); the models are tied to the code by differential runs (LRU, wait list) and by acceptance of hook traces of real multi-threaded runs (queue).",
-    "note": "Trusted: Coq kernel; the hand-written models' fidelity to the Rust (sampled by the correspondence runs; the merging of several critical sections into one model step is justified in ModelWcq.v by the lock discipline, not proved); sequentially consistent interleaving semantics of std Mutex/Condvar (no weak-memory effects); liveness is proved in its safety form only (deadlock freedom incl. lost wake-ups; no fairness, so starvation by an unfair notify_one / mutex is not excluded); the core is assumed to return at least `taken` outputs; HashMap, Box allocation and usize overflow of the byte count are abstracted; extraction (ExtrOcamlBasic) + ocaml/sync42 driver; harness c18; hooks under cfg(blue_verif).",
+    "text": "Coq theorems (Sync42/Props_C18.v) over executable models of sync42's lru.rs (pointer-level doubly linked list + index refines a sequential LRU map for every operation sequence: no panic, no dangling pointer, no leak, size = sum of entry sizes, size <= capacity + sizes of entries last written with eviction disabled), wait_list.rs (the ring of slots refines 'set of linked waiters, oldest is the head' for every sequence of link / blocked link / wake / unlink in any order / notify / store / load incl. more waiters than slots and index wrap-around) and work_coalescing_queue.rs (small-step interleaving model, any number of threads and calls, any core batching policy, mutexes, condition variables with spurious wake-ups and arbitrary notify_one choice: every schedule is panic-free, the core sees each input exactly once in link order, every call returns the output at its own position of its own batch, no reachable state is a deadlock, every run takes at most 33 effective steps per call (so any non-idling scheduler completes every call), linked calls are served strictly first-come-first-served; refuted and recorded as known class link-starvation: a call still asleep in link() can be overtaken without bound by later arrivals); the models are tied to the code by differential runs (LRU, wait list) and by acceptance of hook traces of real multi-threaded runs (queue).",
+    "note": "Trusted: Coq kernel; the hand-written models' fidelity to the Rust (sampled by the correspondence runs; the merging of several critical sections into one model step is justified in ModelWcq.v by the lock discipline, not proved); sequentially consistent interleaving semantics of std Mutex/Condvar (no weak-memory effects); progress is proved without fairness for finite workloads (deadlock freedom incl. lost wake-ups + bounded work); for unbounded arrivals starvation inside link() is possible and recorded (link-starvation); the core is assumed to return at least `taken` outputs; HashMap, Box allocation and usize overflow of the byte count are abstracted; extraction (ExtrOcamlBasic) + ocaml/sync42 driver; harness c18; hooks under cfg(blue_verif).",
 }
 
 PROPS = "theories/Sync42/Props_C18.v"
@@ -357,7 +357,7 @@ def wl_replay(trace_tokens, slots, stats):
                 bad.append("after unlink of %d the head is %d, expected the oldest linked waiter %d" % (a, b, ref.head()))
             if c != flag:
                 bad.append("unlink notify-available flag %d, expected %d" % (c, flag))
-        elif what == "notify_available":
+        elif what in ("notify_available", "notify_available_pre", "notify_head_pre"):
             pass
         elif what == "notify_head":
             mops.append("N")
@@ -420,6 +420,10 @@ def wcq_gen(rng, stats):
     limit = rng.choice([0, 1, 2, 3, 4, 1000, 1000])
     modulus = rng.choice([0, 0, 2, 3, 5])
     delay = rng.choice([0, 0, 20, 100, 300])
+    # an over-producing core: the right outputs followed by junk items the queue must not hand out
+    extra = rng.choice([0, 0, 1, 3])
+    if extra:
+        delay = rng.choice([100, 300, 600])     # long work(): calls enter the queue meanwhile
     seed = rng.below(2 ** 32)
     progs = []
     for t in range(nthreads):
@@ -429,13 +433,51 @@ def wcq_gen(rng, stats):
     stats["wcq_core_" + kind] += 1
     stats["wcq_threads_%d" % nthreads] = stats.get("wcq_threads_%d" % nthreads, 0) + 1
     stats["wcq_small_ring" if slots else "wcq_full_ring"] += 1
-    cfg = dict(slots=slots_real, limit=limit, modulus=modulus, delay=delay, seed=seed, progs=progs)
+    stats["wcq_core_overproducing" if extra else "wcq_core_exact"] += 1
+    cfg = dict(slots=slots_real, limit=limit, modulus=modulus, delay=delay, seed=seed, progs=progs, extra=extra)
     return cfg
 
 
 def wcq_line(cfg):
-    return "wcq %d %d %d %d %d ; %s" % (cfg["slots"], cfg["limit"], cfg["modulus"], cfg["delay"], cfg["seed"],
-                                        " ; ".join(" ".join(str(x) for x in p) for p in cfg["progs"]))
+    line = "wcq %d %d %d %d %d %d %d %d ; %s" % (
+        cfg["slots"], cfg["limit"], cfg["modulus"], cfg["delay"], cfg["seed"], cfg.get("extra", 0),
+        cfg.get("short", 0), cfg.get("watchdog", 0), " ; ".join(" ".join(str(x) for x in p) for p in cfg["progs"]))
+    for g in cfg.get("gates", []):
+        line += " ; G %d %s %d %d %s %d" % tuple(g)
+    return line
+
+
+def wcq_placed(rng):
+    """placed schedules (hook verif::add_gate): a thread stops at a program point, inside whatever
+    critical section it is in, until another thread has reached a given point"""
+    out = []
+    for extra in (0, 2):
+        for more in (0, 1, 3):
+            others = [[301 + 100 * k + j for j in range(rng.range(1, 3))] for k in range(more)]
+            # the other threads join once the placed part is under way
+            og1 = [(2 + k, "call", 1, 1, "link", 1) for k in range(more)]
+            og3 = [(3 + k, "call", 1, 2, "link", 1) for k in range(more)]
+            # (1) a call enters the queue while the leader is inside work(): thread 1 starts its
+            #     call only after thread 0 has closed its batch; thread 0 enters work() only after
+            #     thread 1 has linked
+            out.append(dict(slots=rng.choice([2, 4, 65536]), limit=1000, modulus=0, delay=0, seed=rng.below(2 ** 32),
+                            extra=extra, progs=[[1], [101]] + others, placed="late arrival during work()",
+                            gates=[(1, "call", 1, 0, "batched", 1), (0, "work", 1, 1, "link", 1)] + og1))
+            # (2) the window between a waiter's load and its wait: thread 1 is batched by leader 0,
+            #     loads Stolen, and is held before its wait until the leader has stored its output,
+            #     notified it (both notifications are lost) and unlinked; the leader then needs
+            #     `state` (held by thread 1) to clear doing_work; the hand-over notify_head wakes 1
+            out.append(dict(slots=rng.choice([2, 4, 65536]), limit=1000, modulus=0, delay=0, seed=rng.below(2 ** 32),
+                            extra=extra, progs=[[1], [101]] + others, placed="early notifications lost between load and wait",
+                            gates=[(1, "call", 1, 0, "link", 1), (0, "leader", 1, 1, "link", 1),
+                                   (0, "work", 1, 1, "wait", 1), (1, "wait", 1, 0, "unlink", 1)] + og1))
+            # (3) waiters asleep with their input not yet taken while leaders that refuse batching
+            #     pass: threads 1 and 2 link and go to sleep while leader 0 is held before work()
+            out.append(dict(slots=rng.choice([3, 65536]), limit=1, modulus=0, delay=0, seed=rng.below(2 ** 32),
+                            extra=extra, progs=[[1], [101], [201]] + others, placed="sleeper with untouched input",
+                            gates=[(1, "call", 1, 0, "link", 1), (2, "call", 1, 1, "link", 1),
+                                   (0, "work", 1, 2, "wait", 1)] + og3))
+    return out
 
 
 def parse_results(s):
@@ -463,8 +505,30 @@ def wcq_oracle(cfg, out, stats):
     except ValueError:
         return ["unparsable harness output: " + out[:200]], None, None, ""
     res = parse_results(rpart[1:].strip())
+    if " | G " in bpart:
+        bpart, gpart = bpart.split(" | G ", 1)
+        fired, timeouts = [int(x) for x in gpart.split()]
+        stats["wcq_gates_fired"] += fired
+        stats["wcq_gate_timeouts"] += timeouts
+        if fired == len(cfg.get("gates", [])) and timeouts == 0:
+            stats["wcq_placed_schedules_realised"] += 1
     batches = [[int(x) for x in b.split(",")] if b else [] for b in bpart.strip().split(";")] if bpart.strip() else []
-    events = epart.split()
+    events = [tk for tk in epart.split() if tk.split(":")[1] != "call"]
+    # barging: calls that arrive later and link while an earlier call sleeps in link()
+    asleep, barged = {}, 0
+    for tk in events:
+        f = tk.split(":")
+        t = int(f[0])
+        if f[1] == "link_wait":
+            asleep.setdefault(t, 0)
+        elif f[1] == "link":
+            if t in asleep:
+                barged = max(barged, asleep.pop(t))
+            else:
+                for u in asleep:
+                    asleep[u] += 1
+    stats["wcq_runs_with_barging"] += 1 if barged else 0
+    stats["wcq_max_overtaken_in_link"] = max(stats["wcq_max_overtaken_in_link"], barged)
     progs = cfg["progs"]
     # every call returned, with the output made for its own input
     for t, p in enumerate(progs):
@@ -521,7 +585,7 @@ def wcq_oracle(cfg, out, stats):
                     bad.append("batch %s contains refused input %d" % (b, x))
     stats["wcq_batches"] += len(batches)
     stats["wcq_batched_gt1"] += sum(1 for b in batches if len(b) > 1)
-    return bad, res, batches, epart.strip()
+    return bad, res, batches, " ".join(events)
 
 
 # ======================================================================== plumbing
@@ -594,7 +658,9 @@ def run(chk):
         "wl_blocked_links", "wl_wakes", "wl_links", "wl_links_after_block", "wl_unlink_head", "wl_unlink_other",
         "wl_notify_head", "wl_is_head_true", "wl_is_head_false",
         "wcq_core_refuse", "wcq_core_limit", "wcq_core_accept", "wcq_small_ring", "wcq_full_ring", "wcq_links",
-        "wcq_link_blocked", "wcq_waits", "wcq_followers", "wcq_leaders", "wcq_breaks", "wcq_batches", "wcq_batched_gt1"]}
+        "wcq_link_blocked", "wcq_waits", "wcq_followers", "wcq_leaders", "wcq_breaks", "wcq_batches", "wcq_batched_gt1",
+        "wcq_core_overproducing", "wcq_core_exact", "wcq_gates_fired", "wcq_gate_timeouts",
+        "wcq_placed_schedules_realised", "wcq_runs_with_barging", "wcq_max_overtaken_in_link"]}
     prop_bad, corr_bad = [], []
     corpus = load_corpus()
 
@@ -679,7 +745,7 @@ def run(chk):
     # every schedule of the extracted small-step model for small configurations (a check of the
     # model the theorems are about, not of the implementation)
     mc_cfgs = ["mc 2 100 0 400000 ; 1 ; 2", "mc 1 100 0 400000 ; 1 ; 2 ; 3", "mc 1 0 0 400000 ; 1 2 ; 3",
-               "mc 2 2 0 400000 ; 1 ; 2 ; 3"]
+               "mc 2 2 0 400000 ; 1 ; 2 ; 3", "mc 2 100 0 400000 2 ; 1 ; 2 ; 3", "mc 1 1 0 400000 1 ; 1 2 ; 3"]
     if not quick:
         mc_cfgs += ["mc 2 100 0 6000000 ; 1 2 ; 3 4 ; 5", "mc 1 2 0 6000000 ; 1 2 ; 3 4 ; 5",
                     "mc 3 1 0 6000000 ; 1 ; 2 ; 3 ; 4", "mc 2 3 2 6000000 ; 1 ; 2 ; 3 ; 4",
@@ -728,31 +794,62 @@ def run(chk):
     n_wcq = 800 if quick else 30000
     cfgs = [(c["cfg"], "corpus:" + c["file"]) for c in corpus if c.get("part") == "wcq"]
     r3 = rng.fork()
+    placed = wcq_placed(r3)
+    if not quick:
+        placed = placed * 20
+    for k, c in enumerate(placed):
+        cfgs.append((c, "placed%d" % k))
     for k in range(n_wcq):
         cfgs.append((wcq_gen(r3, stats), "wcq%d" % k))
+    # a long-running caller next to a call that has to wait for the only slot: how many later calls
+    # overtake the one asleep in link() (known class link-starvation)
+    # (the gate names no thread of the run: it only switches the pauses between calls off)
+    cfgs.append((dict(slots=1, limit=1000, modulus=0, delay=0, seed=1, extra=0, gates=[(99, "call", 1, 0, "link", 1)],
+                      progs=[[1000 + k for k in range(300)], [5], [7], [11], [13], [17]]), "barging"))
     wcq_out = run_lines(hxbin, [wcq_line(c) for c, _ in cfgs], chk.work, "wcq_impl")
     if len(wcq_out) != len(cfgs):
         raise RuntimeError("wcq: output line count mismatch")
     acc_in, acc_meta = [], []
     wcq_distinct = set()
+    barging_demo = {}
     for (cfg, tag), out in zip(cfgs, wcq_out):
         if out == "SKIPPED":
             continue
         if out.startswith("DIED") or out.endswith("PANIC"):
             prop_bad.append({"part": "wcq", "tag": tag, "case": wcq_line(cfg), "impl_out": out[-400:], "what": "harness died / panic"})
             continue
+        before = stats["wcq_max_overtaken_in_link"]
+        if tag == "barging":
+            stats["wcq_max_overtaken_in_link"] = 0
         bad, res, batches, ev = wcq_oracle(cfg, out, stats)
+        if tag == "barging":
+            barging_demo = {"case": wcq_line(cfg)[:120] + " ...", "later_calls_that_overtook_a_call_asleep_in_link": stats["wcq_max_overtaken_in_link"]}
+            stats["wcq_max_overtaken_in_link"] = max(before, stats["wcq_max_overtaken_in_link"])
         if bad:
             prop_bad.append({"part": "wcq", "tag": tag, "case": wcq_line(cfg), "what": bad[:5], "impl_out": out[:3000]})
             continue
         # a ring with more slots than there are calls never fills and never wraps: the model is
         # run with (number of calls + 1) slots in that case (the extracted naturals are unary)
         mslots = min(cfg["slots"], sum(len(p) for p in cfg["progs"]) + 1)
-        acc_in.append("wcq %d %d %d ; %s | %s" % (mslots, cfg["limit"], cfg["modulus"],
-                                                  " ; ".join(" ".join(str(x) for x in p) for p in cfg["progs"]), ev))
+        acc_in.append("wcq %d %d %d %d ; %s | %s" % (mslots, cfg["limit"], cfg["modulus"], cfg.get("extra", 0),
+                                                     " ; ".join(" ".join(str(x) for x in p) for p in cfg["progs"]), ev))
         acc_meta.append((cfg, tag, res, batches))
         wcq_distinct.add(ev)
     acc_out = run_lines(mx, acc_in, chk.work, "wcq_model") if acc_in else []
+    # traces the strict acceptor rejects are tried again without the wake-up discipline: if that
+    # accepts, the only thing wrong was a wake-up the model cannot explain by a notification
+    retry = [i for i, ao in enumerate(acc_out) if ao.startswith("REJECT")]
+    unexplained = []
+    if retry:
+        lenient_in = []
+        for i in retry:
+            hd, rest = acc_in[i].split(" ; ", 1)
+            lenient_in.append(hd + " lenient ; " + rest)
+        lenient_out = run_lines(mx, lenient_in, chk.work, "wcq_model_lenient")
+        for i, lo in zip(retry, lenient_out):
+            if lo.startswith("ACCEPT finished"):
+                unexplained.append((acc_meta[i][1], acc_out[i]))
+                acc_out[i] = lo
     accepted = 0
     for (cfg, tag, res, batches), line, ao in zip(acc_meta, acc_in, acc_out):
         okc = False
@@ -772,6 +869,37 @@ def run(chk):
                              "what": "the small-step model does not accept the recorded trace / predicts other outputs",
                              "acceptor_input": line[:6000]})
 
+    # wake-ups without a notification: a real condition variable may wake spuriously (rarely), a
+    # queue that notifies the wrong waiter does so all the time
+    if len(unexplained) >= 3:
+        corr_bad.append({"part": "wcq", "tag": unexplained[0][0], "case": "see tag", "model_verdict": unexplained[0][1],
+                         "what": "%d traces contain a wake-up that no notification explains (strict acceptor rejects, lenient accepts): a notify goes to the wrong waiter or is missing" % len(unexplained)})
+
+    # the known class: a call asleep in link() is overtaken by calls that arrived later
+    if stats["wcq_runs_with_barging"]:
+        for kind, cls, text in vlib.known_findings(PID):
+            if kind == "known" and cls == "link-starvation":
+                for _ in range(stats["wcq_runs_with_barging"]):
+                    chk.known(cls, "a call asleep in WaitList::link was overtaken by later calls (up to %d in one run); unbounded by theorem C18_link_starvation_refuted" % stats["wcq_max_overtaken_in_link"])
+
+    # ---------------------------------------------------------------- the core's contract (informational)
+    # work() must yield at least `taken` outputs.  What the real queue does otherwise (outside the
+    # property, which is about cores that accept, limit or refuse batching):
+    demo = {}
+    d1 = dict(slots=4, limit=1000, modulus=0, delay=0, seed=1, extra=0, short=1, watchdog=1500, progs=[[1], [101]],
+              gates=[(1, "call", 1, 0, "link", 1), (0, "leader", 1, 1, "link", 1)])
+    d2 = dict(slots=4, limit=1000, modulus=0, delay=0, seed=1, extra=0, short=2, watchdog=1500, progs=[[1], [101]],
+              gates=[(1, "call", 1, 0, "unlink", 1)])
+    for name, d in (("one_output_too_few", d1), ("no_outputs", d2)):
+        o = run_lines(hxbin, [wcq_line(d)], chk.work, "contract_" + name)
+        o = o[0] if o else ""
+        hd = o.split("| E")[0]
+        demo[name] = {"case": wcq_line(d), "observed": hd.strip()[:200]}
+    demo["reading"] = ("one output too few for a batch of two: the leader returns, the waiter whose input was taken keeps "
+                       "the Stolen cell and panics ('stolen at head of line') when it becomes head (or sleeps for ever if it does not); "
+                       "no outputs: the leader panics ('Thread gave everyone except itself an output') with doing_work still set "
+                       "and `core` poisoned, so every later call blocks for ever (HANG)")
+
     t_end = time.time()
     evaluations = len(lru_cases) + len(lruc_cases) + len(wl_cases) + len(cfgs)
     chk.coverage.update({
@@ -785,7 +913,10 @@ def run(chk):
         "lru_concurrent_runs": len(lruc_cases), "lru_concurrent_runs_linearised_ok": lruc_ok,
         "model_exploration": {"configurations": len(mc_cfgs), "states": mc_states,
                               "what": "all schedules of the extracted small-step queue model for small configurations: no panic, no deadlock, results correct"},
-        "waitlist_cases": len(wl_cases), "queue_runs": len(cfgs),
+        "waitlist_cases": len(wl_cases), "queue_runs": len(cfgs), "queue_placed_schedules": len(placed),
+        "queue_traces_with_unexplained_wakeup": len(unexplained),
+        "core_contract_demo": demo,
+        "link_starvation_demo": barging_demo,
         "traces_validated_against_impl": accepted + len(wl_model_out) - sum(1 for c in corr_bad if c["part"] == "wl"),
         "queue_traces_accepted_by_model": accepted,
         "correspondence": "lru: Rust vs extracted pointer-level model vs independent Python LRU map (3-way), plus multi-threaded runs on one cache linearised by the order in which the hook saw the operations enter the critical section; wait list: recorded trace of the real ring replayed on the extracted ring model and on a Python statement of the specification; queue: hook trace of real multi-threaded runs accepted by the extracted small-step model (which must predict the same outputs and batches) + direct oracle on outputs, core log and link order",
@@ -803,8 +934,8 @@ def run(chk):
     })
     chk.assumptions = [
         "key equality is decidable and reflects equality (keqb_spec)",
-        "the core's work() returns at least `taken` outputs (theorems about the queue state it as a hypothesis)",
-        "sequential consistency of the mutex / condition-variable operations; no fairness assumed (progress is proved as deadlock freedom)",
+        "the core's work() returns at least `taken` outputs (hypothesis of every queue theorem; NOT in the trait's documentation and not checked by do_work: with fewer outputs the waiters left over stay Stolen and never return, with none the leader panics holding `core` with doing_work set; shown on the real queue in coverage.core_contract_demo; more outputs than `taken` are allowed and exercised: the surplus must not be handed out)",
+        "sequential consistency of the mutex / condition-variable operations; no fairness assumed: progress is proved as deadlock freedom + a bound on the effective steps of ANY run (finite workloads always complete); with unboundedly many arrivals a call asleep in link() can be overtaken for ever (known class link-starvation), a linked call cannot",
         "usize additions in the LRU byte count do not wrap",
     ]
 
@@ -847,7 +978,9 @@ def replay(path):
         f = case["case"].split(";")
         h = f[0].split()
         cfg = dict(slots=int(h[1]), limit=int(h[2]), modulus=int(h[3]), delay=int(h[4]), seed=int(h[5]),
-                   progs=[[int(x) for x in p.split()] for p in f[1:]])
+                   extra=int(h[6]) if len(h) > 6 else 0,
+                   progs=[[int(x) for x in p.split()] for p in f[1:] if not p.split()[0] == "G"],
+                   gates=[p.split()[1:] for p in f[1:] if p.split()[0] == "G"])
         bad, _, _, _ = wcq_oracle(cfg, out, stats)
         print("oracle   :", bad or "ok (schedules of real threads vary from run to run)")
         return 0 if not bad else 1
